@@ -120,6 +120,14 @@ def frame_roundtrip(fin: int, r1: int, r2: int, r3: int, opcode: int, d0: int, d
         return fail('masking key not preserved')
     if rem != T:
         return fail('bytes after the frame not returned untouched', rem=repr(rem))
+    # the idiom of the web server's read loop: one frame object, reset() between frames of the same read
+    g.reset()
+    try:
+        rem2 = g.parse(raw + T)
+    except Exception as e:
+        return fail('parse() after reset() raised', exc=repr(e))
+    if (g.fin, g.opcode, g.masked, g.payload_length, g.data or b'', rem2) != (bool(fin), opcode, masked, plen, payload, T):
+        return fail('the same frame object, reset() and parsed again, yields different fields')
     return ok()
 
 
